@@ -1,6 +1,7 @@
 (** C12 — velocity limits bound spending in every time window, across restarts.
     Statements only; proofs are in Proofs/VelocityProofs.v. *)
 From VLS Require Import Base.U64 Model.Velocity Proofs.VelocityProofs.
+From VLS Require Import Base.Rust Gen.VelocityGen Proofs.VelocityGenProofs.
 
 (** For every policy spec with a finite limit, every history of approvals (non-decreasing
     arrival times, any amounts), node-entry writes and restarts, and every time window no
@@ -31,6 +32,37 @@ Theorem C12_restart_keeps_counted :
     restore it lim0 (disk s) = disk s.
 Proof. exact restart_keeps_counted. Qed.
 Print Assumptions C12_restart_keeps_counted.
+
+(** The [insert] the theorems above speak about is the one in the source: Gen/VelocityGen.v is the
+    statement-by-statement translation of [VelocityControl::insert] and [::velocity]
+    (vls-core/src/util/velocity.rs, regenerated on every run by tools/gen_rustfn.py; meaning of
+    the Rust constructs in Base/Rust.v), and on every control with a positive interval, at least
+    one bucket and a start that is not in the future it returns, in both build profiles, exactly
+    the model's control and verdict - no panic, no wrap. *)
+Theorem C12_insert_is_source :
+  forall (prof : profile) (c : vc) (now amt : N),
+    start c <= now -> now <= U64MAX -> 0 < interval c -> buckets c <> [] ->
+    vec_len (buckets c) <= U64MAX ->
+    gen_insert prof (to_rvc c) now amt =
+    Val (to_rvc (fst (insert c now amt)), snd (insert c now amt)).
+Proof. exact gen_insert_is_model. Qed.
+Print Assumptions C12_insert_is_source.
+
+(** ... and those side conditions hold at every approval request of every history of the node
+    (approvals with non-decreasing u64 times, node-entry writes, restarts) from any policy spec. *)
+Theorem C12_source_agrees_along_history :
+  forall (prof : profile) (it : itype) (lim0 : N) (ops : list vop),
+    nondecreasing 0 (op_times ops) = true ->
+    Forall (fun x => x <= U64MAX) (op_times ops) ->
+    forall ops1 now amt ops2, ops = ops1 ++ Approve now amt :: ops2 ->
+      let c := mem (fst (vrun it lim0 ops1)) in
+      gen_insert prof (to_rvc c) now amt =
+      Val (to_rvc (fst (insert c now amt)), snd (insert c now amt)).
+Proof.
+  intros prof it lim0 ops Hnd Hu.
+  exact (source_agrees_along_history prof it lim0 ops (vinit it lim0) 0 [] (vinit_ok it lim0) Hnd Hu).
+Qed.
+Print Assumptions C12_source_agrees_along_history.
 
 (** An unlimited control approves everything (amounts are u64). *)
 Theorem C12_unlimited :
